@@ -147,6 +147,19 @@ CHECKS = {
             'Trusted: the scheduler (replay divergence is a hard error; one schedule is replayed twice per run); '
             'werkzeug/stdlib execute atomically between points; PYTHONHASHSEED=0.',
             'DESIGN.md section 5, C12'),
+    'C19': ('E2-history-bfs+E4-fault-enumerator',
+            'explicit-state BFS over the real Reservoir with every answer of the random source enumerated; exhaustive '
+            'request/read/reset histories against a model counter',
+            '(a) all sequences of <=7 (thorough 9) add/resize/iterate operations on reservoirs of capacity 1-3 with '
+            'resizes to 1-4, each sampling add branched over every index the random source can return (the module-'
+            'level random seam is scripted), invariants (size <= requested capacity, exact total, no exception, only '
+            'added values, iteration == data) in every state; (b) every history of <=4 (thorough 5) steps over 9 '
+            'request outcomes (200, 302, raised/returned 4xx, uncaught, non-breaking fall-through, catch-all, 404, '
+            '405) + stats read + reset, the stats report compared with a model counter after every read. Enumerating '
+            'the random answers replaces "many random seeds" by a complete argument.',
+            'Trusted: the reservoir object is exactly (_cap, _data, _total_count) (asserted); the stats report is '
+            'keyed by pattern (O9).',
+            'DESIGN.md section 5, C19'),
 }
 
 NOT_YET = 'check not built yet in this revision of /verif (planned: bounded exhaustive exploration, see DESIGN.md section 5)'
